@@ -1,4 +1,4 @@
-import PvlModel.Model.Parser
+import PvlModel.Lemmas.ParseSpec
 
 /-!
 # C15 — strict dialects enforce their character set; the default accepts all
@@ -103,6 +103,32 @@ theorem C15_errpos (g : Grammar) (d : Dec) (ch : Nat) (rest : Str) (i : Nat) (pr
         | cons a r => simp
       omega
   · intro hk; split <;> omega
+
+/-- **C15, at the loader**: when the text handed to the lexer contains a character outside the
+    grammar's table, `parse()` can end in only two ways — with a `LexerError`, or with a module whose last
+    requested token is the END statement (the character lies beyond what the parser asked the lexer for).
+    It never ends in a `ParseError` and never returns a module by running off the end of the text.
+    For every grammar table, decoder, parser class and text. -/
+theorem C15_loader (g : Grammar) (d : Dec) (kind : ParserKind) (prior : List Int) (text : Str) (c : Nat)
+    (hc : c ∈ docOf kind text) (hbad : charAllowed g c = false) :
+    match (parseWith g d kind prior text).outcome with
+    | .ok _ => ∃ t, (parseWith g d kind prior text).last = some t ∧ Tok.isEndStatement g t.text = true
+    | .error e => e.isLexer = true ∨ e = .fuel := by
+  have hne := C15_reject g d (docOf kind text) c hc hbad
+  have hs := parse_spec g d kind prior text
+  revert hs
+  cases (parseWith g d kind prior text).outcome with
+  | ok m =>
+    intro hs
+    rcases hs with ⟨_, h⟩ | h
+    · exact absurd h hne
+    · exact h
+  | error e =>
+    intro hs
+    rcases hs with h | ⟨_, h⟩ | h
+    · exact Or.inl h
+    · exact absurd h hne
+    · exact Or.inr h
 
 example : charAllowed Gen.pvl 233 = true ∧ charAllowed Gen.pvl 0x2603 = false ∧
     charAllowed Gen.odl 233 = false ∧ charAllowed Gen.pvl 11 = true := by decide
